@@ -15,7 +15,7 @@ FDV = os.path.join(HARNESS, "target", "release", "fdv")
 SPEC = os.path.join(ROOT, "spec")
 WORK = os.path.join(HARNESS, "target", "work")
 TLC_CP = "/opt/veriftools/tla/tla2tools.jar:/opt/veriftools/tla/CommunityModules-deps.jar"
-TLA_LIB = ":".join(os.path.join(SPEC, d) for d in ("", "mc", "gen", "trace"))
+TLA_LIB = ":".join([os.path.join(SPEC, d) for d in ("", "mc", "gen", "trace", "proofs")] + ["/opt/veriftools/tlapm/lib/tlapm/stdlib"])
 
 
 class ToolError(Exception):
@@ -174,6 +174,24 @@ def validate_all(prop, spec_module, cfg, files, procs=12, timeout=1200, xmx="3g"
         for f in futs:
             results.append(f.result())
     return results
+
+
+def run_tlapm(module, timeout=900):
+    """Checks a TLAPS proof module in spec/proofs; returns (obligations, proved_all, seconds)."""
+    t0 = time.time()
+    d = os.path.join(SPEC, "proofs")
+    shutil.rmtree(os.path.join(d, ".tlacache"), ignore_errors=True)
+    p = subprocess.run(["timeout", str(timeout), "tlapm", "--threads", "8", module + ".tla"], cwd=d, stdout=subprocess.PIPE, stderr=subprocess.STDOUT, text=True)
+    out = p.stdout
+    shutil.rmtree(os.path.join(d, ".tlacache"), ignore_errors=True)
+    m = re.search(r"All (\d+) obligations? proved", out)
+    if m:
+        return int(m.group(1)), True, time.time() - t0
+    m = re.search(r"(\d+)/(\d+) obligations failed", out)
+    if m:
+        return int(m.group(2)), False, time.time() - t0
+    log(out[-2000:])
+    raise ToolError("tlapm gave no verdict on %s" % module)
 
 
 def fdv(args, stdin_file=None, timeout=3600, capture=True):
